@@ -1,10 +1,10 @@
 ---------------------------- MODULE TgQueue_Trace ----------------------------
 (* Trace validation for C33.  Item: [rate, ev]; events (t = virtual ms)
-   put {id, kind}   send_start {id, t}   send_end {id}   proc {id}   joined {t} (xknx.join() returned)   stopped (stop returned) *)
+   put {id, kind}   send_start {id, t}   send_end {id, ok, t}   con {t}   proc {id}   joined {t} (xknx.join() returned)   stopped (stop returned) *)
 EXTENDS Integers, Sequences, FiniteSets, Json, IOUtils, TLC
 Traces == ndJsonDeserialize(IOEnv.TRACE_FILE)
-VARIABLES pending, open, inflight, lastStart, sent, processed, internal, tid, l
-vars == <<pending, open, inflight, lastStart, sent, processed, internal, tid, l>>
+VARIABLES pending, open, inflight, lastStart, sent, processed, awaiting, awaitSince, confirmed, internal, tid, l
+vars == <<pending, open, inflight, lastStart, sent, processed, awaiting, awaitSince, confirmed, internal, tid, l>>
 Q == INSTANCE TgQueue WITH Rate <- 0
 Ev == Traces[tid].ev[l]
 Rate == Traces[tid].rate
@@ -16,11 +16,12 @@ Step ==
         /\ internal' = IF Ev.kind = "internal" THEN internal \cup {Ev.id} ELSE internal
      \/ /\ Ev.ev = "send_start" /\ Q!StartSend(Ev.id, Ev.t) /\ UNCHANGED internal
         /\ (Rate > 0 /\ lastStart # -1) => (Ev.t - lastStart) * Rate >= 1000          \* at least 1/r seconds apart
-     \/ Ev.ev = "send_end" /\ Q!EndSend(Ev.id) /\ UNCHANGED internal
+     \/ Ev.ev = "send_end" /\ Q!EndSend(Ev.id, Ev.ok = 1, Ev.t) /\ UNCHANGED internal
+     \/ Ev.ev = "con" /\ Q!Con /\ UNCHANGED internal
      \/ Ev.ev = "proc" /\ Q!Process(Ev.id) /\ UNCHANGED internal
      \/ /\ Ev.ev \in {"joined", "stopped"}                      \* every queued telegram was marked done:
         /\ Quiet /\ internal \subseteq processed                 \* nothing left to send, internal ones were processed
-        /\ open' = {} /\ UNCHANGED <<pending, inflight, lastStart, sent, processed, internal>>
+        /\ open' = {} /\ UNCHANGED <<pending, inflight, lastStart, sent, processed, awaiting, awaitSince, confirmed, internal>>
 TSpec == TInit /\ [][Step]_vars
 Mark == /\ TLCSet(2, [TLCGet(2) EXCEPT ![tid] = IF @ < l THEN l ELSE @])
         /\ (l = Len(Traces[tid].ev) + 1 => TLCSet(1, TLCGet(1) \cup {tid}))
